@@ -741,3 +741,31 @@ def rule_py_count_prefix_is_the_loop_length(out, pyr):
             visit(fn.body)
     if n == 0:
         out.undecided(rid, "anchor/count-prefixed loops", rel, "none found")
+
+
+def rule_py_arrays_written_flat(out, pyr):
+    rid = "PF4"
+    out.rule(rid, "_ndjson.py array converters (classes *NDArrayConverter*): the JSON form of array data is a FLAT row-major list — every `x.tolist()` in their to_json / numpy_to_json "
+                  "methods is applied to a flattened array (`ravel()`, `flatten()`, `reshape(-1)`), never to the n-dimensional array itself (nested lists are not what C++ writes and requires)", 3)
+    tree, rel = pyr.parse_py(out, "_ndjson.py")
+    n = 0
+    for cname, cls in pyr.classes(tree).items():
+        if "NDArrayConverter" not in cname:
+            continue
+        for mname, fn in pyr.methods(cls).items():
+            if mname not in ("to_json", "numpy_to_json"):
+                continue
+            n += 1
+            bad = None
+            for c in ast.walk(fn):
+                if isinstance(c, ast.Call) and isinstance(c.func, ast.Attribute) and c.func.attr == "tolist":
+                    r = c.func.value
+                    flat = isinstance(r, ast.Call) and isinstance(r.func, ast.Attribute) and (
+                        r.func.attr in ("ravel", "flatten") or (r.func.attr == "reshape" and len(r.args) == 1 and ast.unparse(r.args[0]) in ("-1", "(-1,)")))
+                    if not flat:
+                        bad = c
+            out.check(bad is None, rid, "%s.%s/array data" % (cname, mname), pyr.pos(rel, bad if bad is not None else fn),
+                      "array data is produced element by element from `.flat` or from a flattened array",
+                      "`%s` converts the n-dimensional array itself: a fixed array of two or more dimensions is written as nested lists, which the generated C++ reader rejects (it writes and requires a flat row-major list)" % (ast.unparse(bad) if bad is not None else ""))
+    if n == 0:
+        out.undecided(rid, "anchor/NDArray converters", rel, "none found")
